@@ -17,7 +17,7 @@ THEOREMS = [
 ]
 ALPHABET = ["\n", " ", "    ", ":param", ":type", ":return", ":rtype", ":cvar", "Args:", "Returns:", "Raises:", "Kwargs:",
             "Parameters", "Returns", "----------", "-------", "-", ":", "x", "foo", "int", "```", ".", ",", "Defaults to 5"]
-UNION_ALPHABET = ["'", '"', ",", " ", "  ", "\\", "or", "of", "a", "`", ";", "List", ".", "1", "\t", "\n"]
+UNION_ALPHABET = ["'", '"', ",", " ", "  ", "\\", "or", "of", "a", "`", ";", "List", ".", "1", "\t", "\n", "\xa0", " ", "\x1c", "　", "\x85"]
 WS_ALPHABET = ["\n", " ", "  ", "\t", "x", "foo bar", ":param a: b", "\n\n", " \n", "."]
 
 _LINES = {}
